@@ -531,6 +531,9 @@ fn boundary_cases() -> Vec<(Vec<Vec<u8>>, Vec<Op>)> {
         (vec![vec![], s40.clone()], p("more,pk,u8,drain")),
         (vec![s40[..5].to_vec(), vec![], s40[5..].to_vec()], p("rs8,rs8,eor40,eor3,drain")),
         (vec![vec![0, 1, 2, 3, 4, 5, 6, 7, 8, 0x80, 1]], p("usz,usz,drain")),
+        // pins the BufReader capacity (256): after a stale guaranteed_eof, check_eor sees exactly one refill
+        (vec![vec![7], vec![], s600[..300].to_vec()], p("rs2,u8,eor256,eor257,more,drain")),
+        (vec![vec![7], vec![], s600[..300].to_vec()], p("rs2,eor257,eor258,u8,eor255,drain")),
     ];
     for k in [1usize, 15, 16, 17, 255, 256, 257] {
         v.push((split(&s600, &[k, 600 - k]), p("u8,rs16,rs17,ra16,u128,eor600,drain")));
